@@ -44,6 +44,9 @@ void Normalizer::Quantifier(SyntaxTree::Node& quant) {
     TupleDeclaration(quant(0), quant(2));
   } else if (declToken == TokenID::NT_ENUM_DECL) {
     EnumDeclaration(quant);
+    if (quant(0).token.id == TokenID::NT_TUPLE_DECL) {
+      TupleDeclaration(quant(0), quant(2));
+    }
   }
 }
 
